@@ -135,8 +135,19 @@ func (w *dw) checkSweepShow() bool {
 		w.fail("C09/control-in-cell", "a BEL reached the terminal during Show #%d; first cells: %s", w.block, w.firstCells())
 		return true
 	}
+	// (on the ansi family the alternate character set is the IBM-PC font,
+	// selected with SGR 11: in it the bytes below 0x20 are glyphs too, and
+	// the description's acsc string names some of them - the arrows at
+	// 0x10, 0x11, 0x18, 0x19, the diamond at 0x04.  The reference terminal
+	// counts such a byte as printed only while that font is selected.)
+	pcGlyph := map[byte]bool{}
+	if t.PCAlt {
+		for i := 0; i+1 < len(w.Ti.AltChars); i += 2 {
+			pcGlyph[w.Ti.AltChars[i+1]] = true
+		}
+	}
 	for _, b := range t.PrintBytes {
-		if b < 0x20 || b == 0x7f {
+		if (b < 0x20 || b == 0x7f) && !pcGlyph[b] {
 			w.fail("C09/control-in-cell", "control byte 0x%02x inside the cell payload of Show #%d", b, w.block)
 			return true
 		}
